@@ -255,11 +255,51 @@ class BlockingCallScan(FiniteTask):
                      tmo is not None and tmo.endswith("_timeout"), detail=f"line {line}: timeout={tmo}")
 
 
+class QueueScan(FiniteTask):
+    """Hand-over between the threads of an association goes through queue.Queue objects.  `put()` is called without a timeout
+    everywhere (user thread -> provider, provider -> user); that can never block only because every queue is UNBOUNDED.  The
+    scan states exactly that: every queue the library constructs has no maximum size, or - should one be bounded - every put on
+    a queue is non-blocking or carries a timeout."""
+    name = "frame/queues-between-threads-never-block-a-put"
+    functions = []
+
+    def check(self, repo, emit):
+        from pyvc.repo import REPO_ROOT
+        ctors, puts = [], []
+        root = os.path.join(REPO_ROOT, "pynetdicom")
+        for dp, dn, fns in os.walk(root):
+            if any(x in dp.split(os.sep) for x in ("tests", "benchmarks", "apps", "docs")):
+                continue
+            for fn in fns:
+                if not fn.endswith(".py"):
+                    continue
+                path = os.path.join(dp, fn)
+                rel = os.path.relpath(path, REPO_ROOT)
+                for n in ast.walk(ast.parse(open(path, encoding="utf-8").read())):
+                    if not isinstance(n, ast.Call):
+                        continue
+                    f = ast.unparse(n.func)
+                    if f in ("queue.Queue", "Queue", "queue.LifoQueue", "queue.PriorityQueue", "queue.SimpleQueue"):
+                        size = n.args[0] if n.args else next((k.value for k in n.keywords if k.arg == "maxsize"), None)
+                        unbounded = size is None or (isinstance(size, ast.Constant) and isinstance(size.value, int) and size.value <= 0)
+                        ctors.append((rel, n.lineno, ast.unparse(n), unbounded))
+                    if isinstance(n.func, ast.Attribute) and n.func.attr == "put" and "queue" in ast.unparse(n.func.value).lower():
+                        kws = {k.arg: k.value for k in n.keywords}
+                        nonblocking = ("timeout" in kws) or (isinstance(kws.get("block"), ast.Constant) and kws["block"].value is False) or \
+                            (len(n.args) > 1 and isinstance(n.args[1], ast.Constant) and n.args[1].value is False)
+                        puts.append((rel, n.lineno, ast.unparse(n)[:60], nonblocking))
+        emit("C08/frame/queue-constructions-found", len(ctors) >= 4, detail=[c[:3] for c in ctors])
+        all_unbounded = all(c[3] for c in ctors)
+        emit("C08/frame/every-queue-between-threads-is-unbounded-or-every-put-is-bounded",
+             all_unbounded or all(p[3] for p in puts),
+             detail={"bounded queues": [c[:3] for c in ctors if not c[3]], "blocking puts": [p[:3] for p in puts if not p[3]][:6]})
+
+
 def tasks(tier):
     from contracts import recvpath
     from contracts.dul_reactor import DulReactorTask
     from contracts.C07 import RunReactorTask
-    return [ConnectTask(), AcceptedSocketTask(), GetMsgTask(), ReceivePduTask(), BlockingCallScan(), DulReactorTask(), RunReactorTask()]
+    return [ConnectTask(), AcceptedSocketTask(), GetMsgTask(), ReceivePduTask(), BlockingCallScan(), QueueScan(), DulReactorTask(), RunReactorTask()]
 
 
 def replay(rec):
